@@ -932,8 +932,10 @@ fn render_ghost_line(ghost_data: &GhostData, ctx: &ImplContext) -> TokenStream {
     let right_side = quote_action(&ghost_data.action, None, ctx);
     let ghost_ident = &ghost_data.ghost_ident.get_ident();
     match (ghost_ident, &ctx.kind) {
-        (Named(ident), Kind::OwnedInto | Kind::RefInto) => quote!(#ident: #right_side,),
-        (Unnamed(_), Kind::OwnedInto | Kind::RefInto) => quote!(#right_side,),
+        (Named(ident), Kind::OwnedInto | Kind::RefInto) =>
+            if ctx.has_post_init { quote!(obj.#ch #ident = #right_side;) } else { quote!(#ident: #right_side,) },
+        (Unnamed(index), Kind::OwnedInto | Kind::RefInto) =>
+            if ctx.has_post_init { quote!(obj.#ch #index = #right_side;) } else { quote!(#right_side,) },
         (Named(ident), Kind::OwnedIntoExisting | Kind::RefIntoExisting) => quote!(other.#ch #ident = #right_side;),
         (Unnamed(index), Kind::OwnedIntoExisting | Kind::RefIntoExisting) => quote!(other.#ch #index = #right_side;),
         (_, _) => unreachable!("7"),
